@@ -68,6 +68,12 @@ def corpus_histories():
                             [{"kind": "convert", "input": r, "context": "Normal", "expect": w} for w in ws]))
     items.append((base, [{"kind": "register", "wkind": "Guess", "reading": r, "word": w, "batch": 1} for r, w in (("かかない", "書かない"), ("かかない", "掻かない"), ("かかない", "欠かない"))] +
                         [{"kind": "convert", "input": fr, "context": "Normal", "expect": fw} for fr, fw in (("かき", "書き"), ("かき", "掻き"), ("かき", "欠き"), ("かく", "掻く"), ("かい", "欠い"))]))
+    # registered words survive a reload: SIGHUP (after a save) either ends the server, which is then started again, or is handled by it
+    for kind in ("hup", "restart"):
+        items.append((base, [{"kind": "register", "wkind": "CommonNoun", "reading": "くるま", "word": "俥"}, {"kind": "register", "wkind": "ProperNoun", "reading": "くるま", "word": "來間"},
+                             {"kind": "register", "wkind": "CommonNoun", "reading": "あたらし", "word": "新し"}, {"kind": "register", "wkind": "Guess", "reading": "かかない", "word": "書かない"},
+                             {"kind": kind}] +
+                            [{"kind": "convert", "input": r, "context": "Normal", "expect": w} for r, w in (("くるま", "俥"), ("くるま", "來間"), ("くるま", "車"), ("あたらし", "新し"), ("かき", "書き"), ("かく", "書く"))]))
     # a word for a reading that was converted just before and is converted again right after (homophone of an existing reading, and a new reading)
     for r, w in (("くるま", "俥"), ("くるまで", "車出"), ("で", "出")):
         items.append((base, [{"kind": "convert", "input": r, "context": "Normal"}, {"kind": "register", "wkind": "CommonNoun", "reading": r, "word": w},
